@@ -6,7 +6,7 @@ real path, with or without index."""
 import io
 import os
 
-from .. import gen, lib, ops, wgen, wexec, parser
+from .. import gen, lib, ops, wgen, wexec, parser, fmt
 from ..backends import store
 from ..compare import V
 from ..core import Result, digest
@@ -19,7 +19,7 @@ from .c09 import pnorm
 
 PROP = 'C10'
 LEVEL = 'exploration'
-N = {'quick': 50000, 'thorough': 1500000}
+N = {'quick': 28000, 'thorough': 1500000}
 RULE = ('seeded non-DAQmx source worlds (stub-made: fragmented over 1-6 segments, rarely 100+, empty / typeless / '
         'property-only channels, strings, timestamps over the full raw range, all property types, optional NI_Scale '
         'properties; or TdmsWriter-made) x source given as SimFS path / SimFile stream / BytesIO x destination SimFS '
@@ -27,7 +27,7 @@ RULE = ('seeded non-DAQmx source worlds (stub-made: fragmented over 1-6 segments
         'raw_timestamps=True and compared: groups, channels, properties, lengths, bit-identical raw values, dtype '
         'when len >= 1, scaled data; destination parsed by the strict parser; descriptor accounting. distinct = '
         '(source shape, src kind, dst kind, index); non-trivial = a channel with >= 1 value was copied')
-EXPECTED_PROBES = ['typeless-channel', 'empty-string-or-timestamp-channel', 'string-channel', 'timestamp-channel',
+EXPECTED_PROBES = ['channel-over-1MiB', 'typeless-channel', 'empty-string-or-timestamp-channel', 'string-channel', 'timestamp-channel',
                    'scaled-channel', 'many-segments', 'dst-index', 'writer-made-source']
 
 
@@ -38,6 +38,7 @@ def opts(tier):
     o.many_segments_p = 0.02
     o.ts_range = None
     o.typeless_p = 0.12
+    o.huge_p = 0.01
     from .c13 import add_scaling
     o.scaling = lambda rng, spec, ctype: add_scaling(rng, spec, ctype, p=0.3)
     return o
@@ -87,6 +88,8 @@ def execute(case):
             if len(w.segs) > 50:
                 res.probe('many-segments')
             for ch in w.chans.values():
+                if ch.type not in (None, 'str', 'daqmx') and ch.count * fmt.size_of(ch.type) > 2**20:
+                    res.probe('channel-over-1MiB')
                 if ch.type is None:
                     res.probe('typeless-channel')
                 elif ch.type in ('str', 'ts') and ch.count == 0:
